@@ -265,6 +265,7 @@ std::string crashHeadline(const std::string &err) {
 }
 
 void runCase(const vh::Args &a, long k, int klass) {
+    c12ops::installHook();        // stage dumps of HyperedgeImprover::execute, if the library has the hook
     vh::Rng r = vh::caseRng(a.seed, k);
     // ---- choose the configuration
     // 13 classes: {no full rerouting at first, rerouting registered by junction} x {improvement off,
